@@ -276,6 +276,19 @@ def _m(p, n, b):
         return False
     if type(p) is not type(n):
         return False
+    # X[i, j] (pattern) also matches X[i][j] when i is a scalar integer
+    # index (the same element of an array)
+    if isinstance(p, ast.Subscript) and isinstance(p.slice, ast.Tuple) and \
+            len(p.slice.elts) == 2 and not isinstance(n.slice, ast.Tuple) \
+            and isinstance(n.value, ast.Subscript) and \
+            scalar_index(n.value.slice, n):
+        b2 = dict(b)
+        if _m(p.value, n.value.value, b2) and \
+                _m(p.slice.elts[0], n.value.slice, b2) and \
+                _m(p.slice.elts[1], n.slice, b2):
+            b.update(b2)
+            return True
+        return False
     if isinstance(p, ast.Constant):
         if isinstance(p.value, (int, float)) and isinstance(
                 n.value, (int, float)) and not isinstance(p.value, bool) \
@@ -304,6 +317,60 @@ def _m(p, n, b):
             if pv != nv:
                 return False
     return True
+
+
+def scalar_index(idx, at):
+    """`idx` (an index expression used at node `at`) is certainly one
+    integer: an int literal, or the target of an enclosing
+    `for idx in range(...)` loop that is not re-bound in that loop."""
+    if isinstance(idx, ast.Constant):
+        return isinstance(idx.value, int) and not isinstance(idx.value, bool)
+    if not isinstance(idx, ast.Name):
+        return False
+    for a in ancestors(at):
+        if isinstance(a, (ast.FunctionDef, ast.AsyncFunctionDef, ast.Lambda)):
+            break
+        if isinstance(a, ast.For) and isinstance(a.target, ast.Name) and \
+                a.target.id == idx.id:
+            it = a.iter
+            if not (isinstance(it, ast.Call) and isinstance(it.func, ast.Name)
+                    and it.func.id == 'range'):
+                return False
+            rebound = [x for st in a.body + a.orelse for x in ast.walk(st)
+                       if isinstance(x, ast.Name) and x.id == idx.id and
+                       isinstance(x.ctx, (ast.Store, ast.Del))]
+            return not rebound
+    return False
+
+
+def merge_scalar_subscripts(expr):
+    """Copy of an expression (of a loaded tree: parent links are needed to
+    find the loops) in which every X[i][j] with a scalar integer i
+    (`scalar_index`) is spelled X[i, j]."""
+    sub = {}
+    for n in ast.walk(expr):
+        if isinstance(n, ast.Subscript) and not isinstance(
+                n.slice, (ast.Tuple, ast.Slice)) and isinstance(
+                    n.value, ast.Subscript) and not isinstance(
+                        n.value.slice, (ast.Tuple, ast.Slice)) and \
+                scalar_index(n.value.slice, n):
+            sub[id(n)] = n
+
+    def rec(n):
+        if id(n) in sub:
+            return ast.Subscript(
+                value=rec(n.value.value),
+                slice=ast.Tuple(elts=[rec(n.value.slice), rec(n.slice)],
+                                ctx=ast.Load()), ctx=ast.Load())
+        new = n.__class__()
+        for f, v in ast.iter_fields(n):
+            if isinstance(v, ast.AST):
+                v = rec(v)
+            elif isinstance(v, list):
+                v = [rec(x) if isinstance(x, ast.AST) else x for x in v]
+            setattr(new, f, v)
+        return ast.copy_location(new, n) if hasattr(n, 'lineno') else new
+    return ast.fix_missing_locations(rec(expr))
 
 
 def _ac_flat(e, op):
